@@ -25,10 +25,18 @@ BASE_TRUSTED = [
 ]
 
 
-def env_offline():
+def env_offline(hooks=False):
+    """hooks=True: build /repo with `--cfg leptos_verif` (separate target dir so the two
+    configurations do not evict each other's artefacts)"""
     e = dict(os.environ)
     e.update(CARGO_NET_OFFLINE="true", GOPROXY="off", PIP_NO_INDEX="1")
-    e.setdefault("CARGO_TARGET_DIR", os.path.join(HARNESS, "target"))
+    e.pop("CARGO_TARGET_DIR", None)
+    if hooks:
+        e["RUSTFLAGS"] = "--cfg leptos_verif"
+        e["CARGO_TARGET_DIR"] = os.path.join(HARNESS, "target-verif")
+    else:
+        e.pop("RUSTFLAGS", None)
+        e["CARGO_TARGET_DIR"] = os.path.join(HARNESS, "target")
     return e
 
 
@@ -140,13 +148,13 @@ def build_harness(cfg, log):
         import shutil
         shutil.copy(lock_src, lock_dst)
     cmd = ["cargo", "build", "--release", "--offline", "-p", cfg["harness_pkg"], "--bin", cfg["harness_bin"]]
-    rc, out = sh(cmd, cwd=HARNESS, timeout=3000)
+    rc, out = sh(cmd, cwd=HARNESS, timeout=3000, env=env_offline(cfg.get("hooks", False)))
     log.append("$ %s -> rc=%d\n%s" % (" ".join(cmd), rc, out[-3000:]))
     return rc == 0, out
 
 
 def harness_bin(cfg):
-    return os.path.join(env_offline()["CARGO_TARGET_DIR"], "release", cfg["harness_bin"])
+    return os.path.join(env_offline(cfg.get("hooks", False))["CARGO_TARGET_DIR"], "release", cfg["harness_bin"])
 
 
 def model_bin(cfg):
